@@ -26,6 +26,14 @@
 //!     -> <forwards still queued> | <still awaiting decode>                      (legacy = production reload path)
 //! plus, on the reference run of every scenario, the run model's state tracked against the live node:
 //!   init/upd/jump/release/complete/notify <chan> ..., state <chan> -> <latest> <watch> <in-flight> <chan nums> <monitor nums>
+//!   spendconf <matured> <pending FundingSpendConfirmation height|-> <best> <#HTLCs the real get_onchain_failed_outbound_htlcs returned> -> ok confs=<n> | INCONSISTENT
+//!   spendfail <matured> <height|-> <best> <a|d|o0|o1> <resolved to user> -> true | false     (one outbound HTLC of a channel closed on chain)
+//! On-chain worlds (`run_chain_world`): a channel of t (payer or forwarder) is closed on chain before the crash by either side's
+//! commitment, 0..ANTI_REORG_DELAY+2 blocks deep, with a PRESENT, a DUST and an ABSENT outbound HTLC; the manager reloaded was written
+//! at the crash / before the blocks / before the close; after the restart optionally a shallow reorg confirms the counterparty's
+//! other commitment; then everything is buried.  Oracles: nothing is failed by the reload while the closing transaction has fewer
+//! than ANTI_REORG_DELAY confirmations; no PaymentFailed / upstream fail-back for an HTLC that is a live output of the buried
+//! commitment; dust / absent HTLCs have failed once it is buried.  VERIF_C10_CHAIN="fwd:processed:closer_t:depth:lag:reorg".
 //! After the restart(s) the application retries the claim / fail-back decisions it took before the crash (as
 //! the claim_funds documentation requires), peers are reconnected and everything is delivered until quiet.
 //!
@@ -364,6 +372,7 @@ fn main() {
 	let mut rng = Rng::new(args.seed);
 	let trace_on = std::env::var("VERIF_TRACE").is_ok();
 	let n_scen = if args.thorough { 22 } else { 11 } * args.scale as usize;
+	let n_scen = if std::env::var("VERIF_C10_ONLY_CHAIN").is_ok() { 0 } else { n_scen };
 	let worlds_per_scen = if args.thorough { 200 } else { 70 }; // a leaked Net per world: memory bounds the thorough tier
 	let mut n_worlds = 0u64; let mut n_adm = 0u64; let mut n_closed = 0u64; let mut n_replay = 0u64; let mut n_second = 0u64; let mut n_settled = 0u64;
 	let mut nondet = 0u64; let mut late_panics = 0u64;
@@ -484,6 +493,10 @@ fn main() {
 			let seen = match guarded(AssertUnwindSafe(|| observe_restart(&mut net, t, mgr, &mons, &unblocked))) { Ok(s) => s, Err(e) => Seen::Err(format!("PANIC {}", e)) };
 			vh::RELOAD_RECONSTRUCT_FROM_MONITORS.store(false, std::sync::atomic::Ordering::Relaxed);
 			let line = seen_line(&seen, &open_q);
+			// KF-C10-5 pattern: a channel with a blocked update AND an in-flight update its monitor copy does not contain yet (a replay is
+			// pending), while another channel's in-flight updates are all in its monitor copy (its MonitorUpdatesComplete runs completion actions)
+			let kf5_pattern = open_q.iter().any(|&k| qv[k].chan.unwrap()[5] > 0 && qv[k].inflight.iter().max().map(|m| mv[k].mon_id < *m).unwrap_or(false))
+				&& open_q.iter().any(|&j| qv[j].inflight.iter().max().map(|m| mv[j].mon_id >= *m).unwrap_or(false));
 			// A panic of the startup background events (after a successful read) in a world of an asynchronously persisting node:
 			// Net::restart_from installs a SYNCHRONOUS persister, so a replayed update completes at once and completion actions run that an
 			// asynchronous persister would not have triggered yet.  Re-run the world and restart with an asynchronous persister instead:
@@ -492,7 +505,7 @@ fn main() {
 			if let Seen::Err(e) = &seen { if w.admissible && async_t && (e.contains("returned Completed while prior updates are still InProgress") || e.contains("Attempted to apply ChannelMonitorUpdates out of order")) {
 				std::mem::forget(net);
 				match confirm_with_async_persister(seed, topo, flavor, t, async_t, n_ops, w) {
-					Some(text) => { let m = format!("{} :: {} [{}] :: with an asynchronous persister after the restart: {}", KF5_TEXT, tag, op, text); if w.rebuild { anoms.push(m); } else { kf_fail(&mut rec, &mut kf_counts, m); } },
+					Some(text) => { if kf5_pattern { let m = format!("{} :: {} [{}] :: with an asynchronous persister after the restart: {}", KF5_TEXT, tag, op, text); if w.rebuild { anoms.push(m); } else { kf_fail(&mut rec, &mut kf_counts, m); } } else { judge(&mut rec, &mut anoms, false, format!("{}: restart from durable state FAILED (also when the node keeps its asynchronous persister: {}) [{}]", tag, text, op)); } },
 					None => { persister_switch += 1; rec.discarded += 1; },
 				}
 				continue;
@@ -568,7 +581,7 @@ fn main() {
 					Seen::Err(e) => { if async_t && (e.contains("returned Completed while prior updates are still InProgress") || e.contains("Attempted to apply ChannelMonitorUpdates out of order")) {
 						std::mem::forget(net);
 						match confirm_with_async_persister(seed, topo, flavor, t, async_t, n_ops, w) {
-							Some(text) => { let m = format!("{} :: {} [{}] :: second restart; with an asynchronous persister after the restart: {}", KF5_TEXT, tag, op, text); if w.rebuild { anoms.push(m); } else { kf_fail(&mut rec, &mut kf_counts, m); } },
+							Some(text) => { if kf5_pattern { let m = format!("{} :: {} [{}] :: second restart; with an asynchronous persister after the restart: {}", KF5_TEXT, tag, op, text); if w.rebuild { anoms.push(m); } else { kf_fail(&mut rec, &mut kf_counts, m); } } else { judge(&mut rec, &mut anoms, false, format!("{}: SECOND restart from durable state FAILED (also when the node keeps its asynchronous persister: {}) [{}]", tag, text, op)); } },
 							None => { persister_switch += 1; },
 						}
 						continue;
@@ -710,8 +723,162 @@ fn main() {
 	rec.notes.insert("known_findings_hit".into(), format!("{:?} (every occurrence counted; at most 4 per finding are listed)", kf_counts));
 	rec.notes.insert("reconstruct_path_anomalies".into(), format!("{} (not judged; first: {:?})", anoms.len(), anoms.iter().take(3).map(|a| a.chars().take(260).collect::<String>()).collect::<Vec<_>>()));
 	rec.notes.insert("discarded_persister_mode_switch".into(), format!("{} worlds: the startup background events panic ('Watch::update_channel returned Completed while prior updates are still InProgress' / 'Attempted to apply ChannelMonitorUpdates out of order') only because the sim restarts the asynchronously persisting node with a synchronous persister; each was re-run and restarted 12 times with an asynchronous persister without a panic", persister_switch));
+	let (n_chain, chain_setup_errs) = chain_family(&mut rec, args);
+	rec.notes.insert("onchain_worlds".into(), format!("{} worlds with a channel closed on chain before the crash (payer / forwarder; commitment of either side, 0..ANTI_REORG_DELAY+2 blocks deep; PRESENT / DUST / ABSENT outbound HTLCs; manager written at the crash / before the blocks / before the close; optional shallow reorg to the counterparty's other commitment); {} could not be set up", n_chain, chain_setup_errs));
 	rec.notes.insert("worlds".into(), format!("worlds={} admissible={} with_replay={} with_closed_channel={} second_crash={} settled={} discarded_nondeterministic_rerun={} discarded_stale_monitor_panic_after_read={}", n_worlds, n_adm, n_replay, n_closed, n_second, n_settled, nondet, late_panics));
 	rec.finish();
+}
+
+
+// =====================================================================================================================
+// Channels closed ON CHAIN before the crash (C10: "outbound payments reach a truthful terminal event")
+// =====================================================================================================================
+/// One on-chain crash world. Line 0 -c0- 1 -c1- 2, synchronous persistence.  `fwd`: node under test t = 1 forwards 0→1→2 and the
+/// channel closed on chain is c1 (peer P = 2); otherwise t = 0 pays 1 directly over c0 (P = 1).  Three outbound HTLCs of t on the
+/// closed channel: PRESENT (an output of the confirmed commitment), DUST (in it, no output) and ABSENT (signed by t into the
+/// counterparty's next commitment; `processed`: P has received add + commitment_signed, so P also holds that next commitment).
+/// The commitment that confirms is P's commitment without the ABSENT HTLC (`closer_t` = false) or t's own holder commitment
+/// (`closer_t`), `depth` blocks deep at the crash (0 = broadcast only).  `lag`: the manager that is reloaded was written 0 = at
+/// the crash, 1 = before the blocks, 2 = before the close.  `reorg`: after the restart the confirming blocks are disconnected and
+/// P's OTHER commitment (with the ABSENT HTLC as an output) confirms instead.
+#[derive(Clone, Copy, Debug)]
+struct ChainWorld { fwd: bool, processed: bool, closer_t: bool, depth: u32, lag: u8, reorg: bool }
+
+fn all_nodes_blocks(net: &mut Net, f: impl Fn(&N)) { for i in 0..net.nodes.len() { f(&net.nodes[i]); } net.pump_all(); }
+
+fn run_chain_world(w: ChainWorld, rec: &mut Rec, seed: u64) -> Result<(), String> {
+	use lightning::chain::channelmonitor::{Balance, ANTI_REORG_DELAY};
+	use lightning::ln::functional_test_utils::{connect_blocks, disconnect_blocks, mine_transaction};
+	let tag = format!("on-chain world {:?} (seed {})", w, seed);
+	let mut rng = Rng::new(seed);
+	let mut net = Net::new(3, vec![None, None, None]);
+	net.open(0, 1, 1_000_000, 400_000_000); net.open(1, 2, 1_000_000, 400_000_000);
+	let (t, pnode, x, pn, pc): (usize, usize, usize, &[usize], &[usize]) = if w.fwd { (1, 2, 1, &[0, 1, 2], &[0, 1]) } else { (0, 1, 0, &[0, 1], &[0]) };
+	let payer = 0usize;
+	let xcid = net.chans[x].2;
+	// baseline payment, settled
+	let b = net.send(pn, pc, 2_000_000 + rng.below(5_000_000), 70)?; net.settle(8); net.claim(b); net.settle(8);
+	// PRESENT and DUST, fully committed and left pending at the recipient
+	let p_pres = net.send(pn, pc, 5_000_000 + rng.below(20_000_000), 70)?; net.settle(8);
+	let p_dust = net.send(pn, pc, 100_000 + rng.below(100_000), 70)?; net.settle(8);
+	let mon_p = |net: &Net| net.nodes[pnode].chain_monitor.chain_monitor.get_monitor(xcid).unwrap().unsafe_get_latest_holder_commitment_txn(&net.nodes[pnode].logger);
+	let tx_n = mon_p(&net)[0].clone();
+	// ABSENT: t signs it into P's next commitment; P may or may not process add + commitment_signed; nothing comes back to t
+	let p_abs = net.send(pn, pc, 3_000_000 + rng.below(20_000_000), 70)?;
+	if w.fwd { for _ in 0..20 { if net.queued(0, 1) > 0 { net.deliver(0, 1); } else if net.queued(1, 0) > 0 { net.deliver(1, 0); } else { break; } } net.forward(1); }
+	let mut tx_n1 = None;
+	if w.processed { while net.queued(t, pnode) > 0 { net.deliver(t, pnode); } tx_n1 = Some(mon_p(&net)[0].clone()); }
+	net.q.remove(&(pnode, t)); net.q.remove(&(t, pnode));
+	let hashes = [net.pays[p_pres].hash, net.pays[p_dust].hash, net.pays[p_abs].hash];
+	let mgr_before_close = net.nodes[t].node.encode();
+	let h_before_close = net.nodes[t].best_block_info().1;
+	// the close
+	let closing_tx = if w.closer_t {
+		// t's own holder commitment (it does not contain the ABSENT HTLC: P's commitment_signed for it never arrived)
+		let tx_t = net.nodes[t].chain_monitor.chain_monitor.get_monitor(xcid).unwrap().unsafe_get_latest_holder_commitment_txn(&net.nodes[t].logger)[0].clone();
+		net.nodes[t].node.force_close_broadcasting_latest_txn(&xcid, &net.ids[pnode], "closed by the application".to_string()).map_err(|e| format!("{:?}", e))?;
+		net.pump(t); net.process_events(t);
+		tx_t
+	} else { tx_n.clone() };
+	net.q.remove(&(pnode, t)); net.q.remove(&(t, pnode));
+	let mgr_before_blocks = net.nodes[t].node.encode();
+	if w.depth > 0 {
+		all_nodes_blocks(&mut net, |n| { mine_transaction(n, &closing_tx); });
+		if w.depth > 1 { all_nodes_blocks(&mut net, |n| { connect_blocks(n, w.depth - 1); }); }
+	}
+	let tip = net.nodes[t].best_block_info().1;
+	// ---- the durable world ---------------------------------------------------------------------------------------
+	let mgr = match w.lag { 0 => net.nodes[t].node.encode(), 1 => mgr_before_blocks, _ => mgr_before_close };
+	let mgr_height = match w.lag { 0 => tip, _ => h_before_close };
+	let mut mons = vec![];
+	for (_, _, cid) in chans_of(&net, t) { mons.push(net.nodes[t].chain_monitor.chain_monitor.get_monitor(cid).unwrap().encode()); }
+	{
+		let m = net.nodes[t].chain_monitor.chain_monitor.get_monitor(xcid).unwrap();
+		let (best, awaiting, matured, _, _) = vh::monitor_onchain_view(&m);
+		let sh = awaiting.iter().find(|a| a.2 == "FundingSpendConfirmation").map(|a| a.1);
+		let failed = vh::monitor_onchain_failed_outbound_htlcs(&m);
+		let mt = if matured.is_some() { 1 } else { 0 };
+		let shs = sh.map(|h| h.to_string()).unwrap_or("-".into());
+		rec.case(&format!("spendconf {} {} {} {}", mt, shs, best, failed.len()), &format!("ok confs={}", if sh.is_some() { w.depth } else { 0 }), &format!("onchain:spendconf:depth{}", w.depth.min(ANTI_REORG_DELAY + 1)), true);
+		// PRESENT is an output of the confirmed commitment and unresolved; DUST has no output; ABSENT is not in it at all
+		for (pos, h, name) in [("o0", hashes[0], "present"), ("d", hashes[1], "dust"), ("a", hashes[2], "absent")] {
+			rec.case(&format!("spendfail {} {} {} {} 0", mt, shs, best, pos), &format!("{}", failed.contains(&h)), &format!("onchain:spendfail:{}:{}", name, if w.depth == 0 { "unconfirmed" } else if w.depth < ANTI_REORG_DELAY { "shallow" } else { "buried" }), true);
+		}
+	}
+	// ---- restart ---------------------------------------------------------------------------------------------------
+	let ev0: Vec<usize> = (0..3).map(|i| net.events[i].len()).collect();
+	net.restart_from(t, &mgr, &mons).map_err(|e| format!("restart failed: {}", e))?;
+	if mgr_height < tip { // the application brings the older manager up to the chain tip
+		use lightning::chain::Listen;
+		let blocks: Vec<(bitcoin::Block, u32)> = net.nodes[t].blocks.lock().unwrap().iter().filter(|b| b.1 > mgr_height).cloned().collect();
+		for (blk, h) in blocks { net.nodes[t].node.block_connected(&blk, h); }
+		net.pump(t);
+	}
+	net.process_events(t); net.forward(t); net.process_events(t);
+	if w.fwd { net.reconnect(1, 0); for _ in 0..30 { if net.queued(1, 0) > 0 { net.deliver(1, 0); } else if net.queued(0, 1) > 0 { net.deliver(0, 1); } else { break; } } net.process_events(0); net.process_events(1); }
+	let failed_now = |net: &Net, h: &lightning::types::payment::PaymentHash| -> bool {
+		net.events[payer][ev0[payer]..].iter().any(|e| matches!(e, Event::PaymentFailed { payment_hash: Some(x), .. } if x == h))
+	};
+	let claimed_now = |net: &Net, h: &lightning::types::payment::PaymentHash| -> bool { net.events[payer].iter().any(|e| matches!(e, Event::PaymentSent { payment_hash, .. } if payment_hash == h)) };
+	let what = if w.fwd { "forward failed back upstream (the payer got PaymentFailed)" } else { "payment reported PaymentFailed" };
+	let names = ["PRESENT", "DUST", "ABSENT"];
+	// (a) nothing is failed by the reload while the closing transaction is not buried
+	let mut failed_at_reload = [false; 3];
+	for k in 0..3 { failed_at_reload[k] = failed_now(&net, &hashes[k]);
+		if failed_at_reload[k] && w.depth < ANTI_REORG_DELAY {
+			rec.oracle_fail(format!("{}: {} on reload although its closing transaction has only {} < ANTI_REORG_DELAY confirmations ({} HTLC {} of channel {})", tag, what, w.depth, names[k], hex(&hashes[k].0[..4]), x));
+		}
+	}
+	// ---- optional shallow reorg to the counterparty's other commitment, then bury -----------------------------------------
+	let reorged = w.reorg && w.depth >= 1 && w.depth < ANTI_REORG_DELAY && !w.closer_t && tx_n1.is_some();
+	if reorged {
+		let d = w.depth;
+		all_nodes_blocks(&mut net, |n| { disconnect_blocks(n, d); });
+		let other = tx_n1.clone().unwrap();
+		all_nodes_blocks(&mut net, |n| { mine_transaction(n, &other); });
+	} else if w.depth == 0 { all_nodes_blocks(&mut net, |n| { mine_transaction(n, &closing_tx); }); }
+	all_nodes_blocks(&mut net, |n| { connect_blocks(n, ANTI_REORG_DELAY + 1); });
+	for _ in 0..3 { net.process_events(t); net.forward(t); if w.fwd { for _ in 0..30 { if net.queued(1, 0) > 0 { net.deliver(1, 0); } else if net.queued(0, 1) > 0 { net.deliver(0, 1); } else { break; } } } net.process_events(0); net.process_events(1); }
+	// (b) truthfulness once the confirmed commitment is buried
+	let live: Vec<lightning::types::payment::PaymentHash> = net.nodes[t].chain_monitor.chain_monitor.get_monitor(xcid).unwrap().get_claimable_balances().iter().filter_map(|b| match b { Balance::MaybeTimeoutClaimableHTLC { payment_hash, .. } => Some(*payment_hash), _ => None }).collect();
+	for k in 0..3 {
+		let failed = failed_now(&net, &hashes[k]);
+		if failed && live.contains(&hashes[k]) {
+			rec.oracle_fail(format!("{}: {} although, with the confirmed commitment buried{}, the {} HTLC {} is a live output that the recipient can still claim on chain", tag, what, if reorged { " after the reorg" } else { "" }, names[k], hex(&hashes[k].0[..4])));
+		}
+		if failed && claimed_now(&net, &hashes[k]) { rec.oracle_fail(format!("{}: {} HTLC {} is both PaymentSent and PaymentFailed", tag, names[k], hex(&hashes[k].0[..4]))); }
+		// an HTLC that is not an output of the buried commitment (dust, or absent from it) has failed by now
+		let gone = k == 1 || (k == 2 && !reorged && !live.contains(&hashes[k]));
+		if gone && !failed && !w.closer_t { rec.oracle_fail(format!("{}: the {} HTLC {} is not an output of the buried commitment but {} never happened", tag, names[k], hex(&hashes[k].0[..4]), if w.fwd { "the fail-back upstream" } else { "PaymentFailed" })); }
+	}
+	std::mem::forget(net);
+	Ok(())
+}
+
+fn chain_family(rec: &mut Rec, args: &Args) -> (u64, u64) {
+	use lightning::chain::channelmonitor::ANTI_REORG_DELAY;
+	let mut worlds = vec![];
+	for fwd in [false, true] { for processed in [false, true] { for closer_t in [false, true] { for depth in 0..=ANTI_REORG_DELAY + 2 { for lag in 0..3u8 { for reorg in [false, true] {
+		if reorg && (closer_t || !processed || depth == 0 || depth >= ANTI_REORG_DELAY) { continue; }
+		worlds.push(ChainWorld { fwd, processed, closer_t, depth, lag, reorg });
+	} } } } } }
+	let mut rng = Rng::new(args.seed ^ 0x0C4A1);
+	for i in (1..worlds.len()).rev() { let j = rng.below(i as u64 + 1) as usize; worlds.swap(i, j); }
+	if !args.thorough { worlds.truncate(60); }
+	let only = std::env::var("VERIF_C10_CHAIN").ok();
+	let (mut n, mut errs) = (0u64, 0u64);
+	for w in worlds {
+		let key = format!("{}:{}:{}:{}:{}:{}", w.fwd as u8, w.processed as u8, w.closer_t as u8, w.depth, w.lag, w.reorg as u8);
+		if let Some(o) = &only { if *o != key { continue; } }
+		n += 1;
+		let seed = rng.next();
+		match guarded(AssertUnwindSafe(|| run_chain_world(w, rec, seed))) {
+			Ok(Ok(())) => {},
+			Ok(Err(e)) => { errs += 1; rec.discarded += 1; if std::env::var("VERIF_TRACE").is_ok() { eprintln!("chain world {} could not be set up: {}", key, e); } },
+			Err(p) => rec.oracle_fail(format!("on-chain world {:?} [VERIF_C10_CHAIN={}] (seed {}): panic: {}", w, key, seed, p.chars().take(200).collect::<String>())),
+		}
+	}
+	(n, errs)
 }
 
 /// Reference run → ops for the run model (Restart.step), checked against the live node at every point.
